@@ -2,7 +2,7 @@
 # keep_seeded.sh <Cxx> <variant>: after tools/seeded.py verify succeeded, copy the candidate into /verif/seeded/<Cxx>-<variant>/ and record what was run
 set -e
 cd "$(dirname "$0")/.."
-src=/tmp/seed/out/$1/$2
+src=${SEED_OUT:-/tmp/seed/out}/$1/$2
 dst=seeded/$1-$2
 mkdir -p $dst
 cp $src/patch.diff $src/demo.py $dst/
